@@ -22,6 +22,13 @@ def body(ch):
     part, cul, q, ref = sc.build(ch)
     if part == 'normaliser':
         ch.prune()
+    if part == 'shared-state-writes':
+        res = sc.shared_state_writes(ch)
+        if res:
+            ch.fail(res[0], res[1])
+        else:
+            ch.ok(case=None, nontrivial=True, outcome='shared-state-writes')
+        return
     if part == 'two-threads':
         (rec, mt), qs, plan, got, alone = sc.two_threads(ch)
         for tid, q in enumerate(qs):
